@@ -82,6 +82,25 @@ def classify(which, r):
     return "violation", "non-std-exception", o.get("err", "")
 
 
+# Diagnostics of these classes are raised where the tool has a source position in hand (their constructors are given
+# one): such an error object must carry it ("with the source position where one is known").  The plain hexutil::Error and
+# classes that also have a position-less form (hexasm::InvalidOprError) or are given the position of a directive
+# that the compiler generated itself (hexasm::UnknownLabelError: "unknown label main") say nothing either way.
+LOCATED_CLASSES = {
+    "xcmp::CharConstError", "xcmp::TokenError", "xcmp::UnexpectedTokenError", "xcmp::ExpectedNameError", "xcmp::ParserTokenError",
+    "xcmp::SemanticTokenError", "xcmp::UnknownSymbolError", "xcmp::RedefinedSymbolError", "xcmp::NonConstValError",
+    "xcmp::NonConstArrayLengthError", "xcmp::InvalidSyscallError",
+    "hexasm::UnrecognisedTokenError", "hexasm::UnexpectedTokenError",
+}
+
+
+def position_rule(o):
+    """-> violation key or None for a rejection record"""
+    if o.get("errclass") in LOCATED_CLASSES and not o.get("located"):
+        return "position-known-but-not-reported:" + o["errclass"].split("::")[-1]
+    return None
+
+
 def worker(job):
     which, wseed, n, exe, corpus = job
     rnd = random.Random(wseed)
@@ -100,7 +119,7 @@ def worker(job):
     # alone with a budget ten times as large before anything is said about them)
     res = common.run_harness_single(exe, cases, args=["cases"], tag="fz", env={"VERIF_CASE_TIMEOUT_MS": "8000", "VERIF_MAX_TIMEOUTS": "6"})
     out = {"n": n, "classes": {}, "accepted": 0, "rejected": 0, "located": 0, "diags": {}, "viol": [], "timeouts": [], "san_blocks": 0,
-           "distinct": set()}
+           "distinct": set(), "errclasses": {}}
     for i, (cls, data) in enumerate(meta):
         r = res[str(i)]
         oc, key, detail = classify(which, r)
@@ -112,6 +131,12 @@ def worker(job):
             out["rejected"] += 1
             if r["out"].get("located"):
                 out["located"] += 1
+            ec = r["out"].get("errclass") or "?"
+            out["errclasses"][ec] = out["errclasses"].get(ec, 0) + 1
+            pk = position_rule(r["out"])
+            if pk:
+                out["viol"].append((pk, {"class": cls, "input_latin1": data.decode("latin-1")[:4096], "input_hex": data.hex()[:8192],
+                                         "diagnostic": r["out"].get("err")}))
             d = re.sub(r"[0-9]+", "N", detail)[:50]
             d = re.sub(r"(symbol|label|name|character) \S+", r"\1 <x>", d)
             out["diags"][d] = out["diags"].get(d, 0) + 1
@@ -312,6 +337,11 @@ def fixed_cases(v, which, exe, items):
     res = common.run_harness(exe, cases, args=["cases"], tag="fzfix")
     for i, (cls, data) in enumerate(items):
         oc, key, detail = classify(which, res[str(i)])
+        if oc == "rejected":
+            pk = position_rule(res[str(i)]["out"])
+            if pk:
+                v.violation(pk, {"class": cls, "input_latin1": data.decode("latin-1")[:4096], "diagnostic": res[str(i)]["out"].get("err")})
+            v.hist("rejections_by_error_class", res[str(i)]["out"].get("errclass") or "?", 1)
         v.cov["evaluations"] += 1
         v.hist("cases_by_generator_class", cls + "(enumerated)", 1)
         if oc == "violation":
